@@ -111,7 +111,7 @@ def finish(ctx, broken=None):
         else:
             violations.append(o)
 
-    evdir = os.path.join(VERIF, 'evidence') if REPO == '/repo' else os.path.join(VERIF, '.work', 'evidence-alt')
+    evdir = os.environ.get('VERIF_EVDIR') or (os.path.join(VERIF, 'evidence') if REPO == '/repo' else os.path.join(VERIF, '.work', 'evidence-alt'))
     os.makedirs(os.path.join(evdir, 'replay'), exist_ok=True)
     for o, k in known_hits:
         print('KNOWN-FINDING: property=%s %s [%s %s at %s]' % (prop, k.get('what', o.detail), o.rule, o.key, o.loc))
